@@ -471,6 +471,9 @@ def run(ctx, load):
     ctx.stats['configs'] = ['default']
     check_scalar_cmps(P, ctx)
     check_predicates(P, ctx)
+    from . import evals
+    evals.report_type_cmp(P, ctx, 'C09.type-order', site, what=('cmp',))
+    ctx.floor('C09.type-order', 1)
     check_container_cmps(P, ctx)
     check_default(P, ctx)
 
